@@ -4,6 +4,19 @@ import json, os
 HERE = os.path.dirname(os.path.dirname(os.path.abspath(__file__)))
 
 CLAIMED = {
+    "C16": dict(
+        technique="const-evaluated METADATA + encode-set bitmask + decision table of authorization_header + effect extraction of make_endpoint_url + sibling agreement over every generated request/response pair (configuration B)",
+        text="Decides structural necessary conditions: encode set covers / ? # %; placeholders percent-encoded one argument each; auth header table; all paths of every endpoint carry the same placeholders; "
+             "(thorough: 445 request/response pairs) same query and body carrier types on both sides, path-argument count written = read = placeholders; XMatrix writes the parameter names it parses. "
+             "Value round trips of field types and select_path over arbitrary version subsets are NOT decided.",
+        note="Trusted: serde_html_form, serde_json, http crates.",
+        design="DESIGN.md §4 C16"),
+    "C18": dict(
+        technique="writer/reader agreement on MIR: dispatch arms of every generated Any*Event deserializer vs const-evaluated TYPE constants and event-type tables; decision extraction of redaction detection; shape rules for Raw<T>; serde skip/required symmetry over all derived impls",
+        text="Decides: every dispatch arm parses the kind of the content type whose TYPE is the arm's literal (or alias) and builds the matching variant, fallback _Custom (165 arms, 11 enums); Redacted iff "
+             "unsigned.redacted_because; Raw<T> keeps and parses the original text, get_field scans all keys; no derived type can skip a field it requires on input. Fixpoint of each content type under a second round trip is NOT decided.",
+        note="Trusted: serde derive semantics, serde_json RawValue.",
+        design="DESIGN.md §4 C18"),
     "C06": dict(
         technique="type-directed order-taint inventory over MIR (hash-iteration consumers) with automatic discharge + reviewed exact-key table; comparator extraction; who-may-call deny list; identity path",
         text="Decides: every consumer of a hash-ordered iteration in ruma-state-res is order-insensitive by construction or reviewed with its discharge (10 sites); the two discharging orders end in the "
